@@ -78,6 +78,9 @@ async fn asynchronous(worterbuch: &CloneableWbApi, config: &Config) -> Persisten
     )
     .await?;
 
+    // only now that the slot is complete it becomes the one to load from
+    switch_alternating_files(config).await?;
+
     File::create(&last_persisted).await?;
 
     Ok(())
@@ -117,6 +120,9 @@ pub(crate) async fn synchronous(
         &grave_goods_last_will_path_checksum,
     )
     .await?;
+
+    // only now that the slot is complete it becomes the one to load from
+    switch_alternating_files(config).await?;
 
     File::create(&last_persisted).await?;
 
@@ -184,59 +190,42 @@ async fn validate_file_content<P: AsRef<Path> + Debug>(
 
 #[instrument(skip(config) fields(version=3), err)]
 pub async fn load(config: &Config) -> PersistenceResult<Worterbuch> {
+    match try_load_slot(config, false).await {
+        Ok(worterbuch) => Ok(worterbuch),
+        Err(e) => {
+            warn!("Could not load active persistence slot: {e}");
+            info!("Trying to load the other persistence slot …");
+            let worterbuch = try_load_slot(config, true).await?;
+            // from now on this is the active slot, otherwise the next flush would overwrite the only
+            // complete copy
+            switch_alternating_files(config).await?;
+            Ok(worterbuch)
+        }
+    }
+}
+
+/// Loads the store and the grave goods / last wills that were flushed together with it.
+async fn try_load_slot(config: &Config, inactive: bool) -> PersistenceResult<Worterbuch> {
     let (
         store_path,
         store_path_checksum,
         grave_goods_last_will_path,
         grave_goods_last_will_path_checksum,
         _,
-    ) = file_paths(config, false).await?;
+    ) = file_paths(config, inactive).await?;
 
-    let mut wb = match try_load(&store_path, &store_path_checksum, config).await {
-        Ok(worterbuch) => Ok(worterbuch),
-        Err(e) => {
-            warn!(
-                "Could not load persistence file {}: {e}",
-                store_path.to_string_lossy()
-            );
-            let (store_path, store_path_checksum, _, _, _) = file_paths(config, true).await?;
-            info!(
-                "Trying to load persistence file {} …",
-                store_path.to_string_lossy()
-            );
-            try_load(&store_path, &store_path_checksum, config).await
-        }
-    }?;
+    let mut wb = try_load(&store_path, &store_path_checksum, config).await?;
 
-    if let Ok(grave_goods_last_will) = match try_load_grave_goods_last_will(
+    // a slot is only complete with the registrations that were flushed together with the store
+    let grave_goods_last_will = try_load_grave_goods_last_will(
         &grave_goods_last_will_path,
         &grave_goods_last_will_path_checksum,
     )
-    .await
-    {
-        Ok(gglw) => Ok(gglw),
-        Err(e) => {
-            warn!(
-                "Could not load persistence file {}: {e}",
-                grave_goods_last_will_path.to_string_lossy()
-            );
-            let (_, _, grave_goods_last_will_path, grave_goods_last_will_path_checksum, _) =
-                file_paths(config, true).await?;
-            info!(
-                "Trying to load persistence file {} …",
-                grave_goods_last_will_path.to_string_lossy()
-            );
-            try_load_grave_goods_last_will(
-                &grave_goods_last_will_path,
-                &grave_goods_last_will_path_checksum,
-            )
-            .await
-        }
-    } {
-        wb.apply_grave_goods(grave_goods_last_will.grave_goods)
-            .await;
-        wb.apply_last_wills(grave_goods_last_will.last_will).await;
-    }
+    .await?;
+
+    wb.apply_grave_goods(grave_goods_last_will.grave_goods)
+        .await;
+    wb.apply_last_wills(grave_goods_last_will.last_will).await;
 
     Ok(wb)
 }
@@ -288,7 +277,10 @@ pub(crate) async fn file_paths(
     let mut toggle_path = dir.clone();
     toggle_path.push(".toggle");
 
-    let main = toggle_alternating_files(&toggle_path, write).await?;
+    // the active slot is the one the last completed flush was written to; a flush writes to the
+    // other one and makes it the active one only after everything is on disk
+    let active = toggle_alternating_files(&toggle_path, false).await?;
+    let main = if write { !active } else { active };
 
     let mut store_path = dir.clone();
     let mut store_path_checksum = dir.clone();
@@ -316,6 +308,13 @@ pub(crate) async fn file_paths(
         grave_goods_last_will_path_checksum,
         last_persisted,
     ))
+}
+
+async fn switch_alternating_files(config: &Config) -> PersistenceResult<()> {
+    let mut toggle_path = PathBuf::from(&config.data_dir);
+    toggle_path.push(".toggle");
+    toggle_alternating_files(&toggle_path, true).await?;
+    Ok(())
 }
 
 #[instrument(level=Level::DEBUG, ret, err)]
